@@ -39,6 +39,7 @@ static long W_calls[VP_MAXCO + 1];                         /* wrapped calls made
 static long W_kill_at[VP_MAXCO + 1];                       /* kill the coroutine before its K-th wrapped call (0 = never) */
 /* death at an arbitrary moment of the OTHER side's execution (SIGKILL while the victim is wherever it is, also blocked):
    the victim dies just before the J-th wrapped call the observer makes after the order was armed */
+static int W_patch_maxmsg = -1;   /* >= 0: the next handshake request that is sent carries this max_msg_size */
 static int W_eintr_budget;    /* that many blocking sem_timedwait calls are interrupted by a (handled) signal half-way */
 static int W_poke_server;     /* the server application has something to do on its own (a timer of its own fired): its loop wakes up once */
 static int W_hit_victim = -1, W_hit_observer = -1, W_hit_done;
@@ -71,7 +72,7 @@ int __real_kill(pid_t p, int s);
 static void w_reset(void)
 {
 	W_now = W_BASE; W_epoch = 0;
-	memset(WT, 0, sizeof WT); memset(W_dead, 0, sizeof W_dead); memset(W_calls, 0, sizeof W_calls); memset(W_kill_at, 0, sizeof W_kill_at); W_hit_victim = W_hit_observer = -1; W_hit_done = 0; W_hit_at = 0; W_poke_server = 0; W_eintr_budget = 0; memset(W_cred, 0, sizeof W_cred); W_fs_hook = NULL;
+	memset(WT, 0, sizeof WT); memset(W_dead, 0, sizeof W_dead); memset(W_calls, 0, sizeof W_calls); memset(W_kill_at, 0, sizeof W_kill_at); W_hit_victim = W_hit_observer = -1; W_hit_done = 0; W_hit_at = 0; W_poke_server = 0; W_eintr_budget = 0; W_patch_maxmsg = -1; memset(W_cred, 0, sizeof W_cred); W_fs_hook = NULL;
 	W_server_co = -1; W_dead_server_pid = 0; W_stop_server = 0; W_free_choices = 0; W_small_bufs = 0;
 }
 
@@ -298,7 +299,13 @@ ssize_t __wrap_send(int fd, const void *b, size_t n, int fl);
 ssize_t __wrap_send(int fd, const void *b, size_t n, int fl)
 {
 	ssize_t r;
+	unsigned char patched[24];
 	w_call("send");
+	if (W_patch_maxmsg >= 0 && n == 24 && ((const int32_t *)b)[0] == QB_IPC_MSG_AUTHENTICATE) {
+		/* a hostile client announces its own maximum message size in an otherwise regular handshake */
+		int32_t v = W_patch_maxmsg;
+		memcpy(patched, b, 24); memcpy(patched + 16, &v, 4); b = patched; W_patch_maxmsg = -1;
+	}
 	r = __real_send(fd, b, n, fl | MSG_DONTWAIT);
 	if (r < 0 && (errno == EAGAIN || errno == EWOULDBLOCK)) w_after_eagain("send on a full socket");
 	return r;
